@@ -133,6 +133,11 @@ impl R2ROperator<Triple, Vec<PhysicalOperator>, Vec<(String, String)>> for Simpl
     }
 
     fn add(&mut self, data: Triple) {
+        // A triple that the previous cycle only derived is raw content now: it must
+        // survive the eviction of that cycle's derived triples in `materialize`.
+        if !self.derived_triples.is_empty() {
+            self.derived_triples.retain(|derived| derived != &data);
+        }
         self.item.add_triple(data);
     }
 
